@@ -394,8 +394,109 @@ def run_halfclose(kind, tmp, variant):
     return viol
 
 
+def run_two_servers(kind_a, kind_b, tmp, order):
+    """Two pools, each with its own control server, in one event loop: stopping one server while the OTHER one has a client
+    connected completes the stopped server's task (its own clients are gone), removes its socket file, and leaves the other
+    server serving."""
+    loop = SLoop()
+    events._set_running_loop(loop)
+    vw.ACTIVE = vw.Recorder(loop)
+    viol = []
+    paths = [os.path.join(tmp, f"a{os.getpid()}.sock"), os.path.join(tmp, f"b{os.getpid()}.sock")]
+    tasks = []
+    writers = []
+    try:
+        pools = [SimpleTaskPool(vw.work, pool_size=3), SimpleTaskPool(vw.work, pool_size=3)]
+        srvs = []
+        for kind, pool, path in zip((kind_a, kind_b), pools, paths):
+            srv = UnixControlServer(pool, socket_path=path) if kind == "unix" else TCPControlServer(pool, host="127.0.0.1", port=0)
+            srvs.append(srv)
+            tasks.append(loop.run_coro(srv.serve_forever()))
+        loop.quiesce()
+
+        def connect(i):
+            if (kind_a, kind_b)[i] == "unix":
+                r, w = loop.run_coro(asyncio.open_unix_connection(paths[i]))
+            else:
+                r, w = loop.run_coro(asyncio.open_connection("127.0.0.1", srvs[i]._server.sockets[0].getsockname()[1]))
+            w.write(json.dumps({"terminal_width": 80}).encode() + b"\n")
+            loop.quiesce()
+            got = bytes(r._buffer)
+            r._buffer.clear()
+            if got != str(pools[i]).encode() + b"\n":
+                viol.append(("handshake reply is not the pool's name", i, got))
+            writers.append(w)
+            return r, w
+
+        rb, wb = connect(1)  # a client of server B stays connected
+        if order == "a-client-came-and-went":
+            ra, wa = connect(0)
+            wa.close()
+            loop.quiesce()
+        tasks[0].cancel()  # stop server A
+        loop.quiesce()
+        if not tasks[0].done():
+            viol.append(("every client of the stopped server is gone but its cancelled serving task is still pending "
+                         "(a client of ANOTHER server is connected)", kind_a, kind_b, order))
+        if srvs[0].is_serving():
+            viol.append(("is_serving() still true after the serving task was cancelled", kind_a))
+        if kind_a == "unix" and os.path.exists(paths[0]):
+            viol.append(("stopped unix server's socket file still exists", order))
+        wb.write(b"num-running\n")
+        loop.quiesce()
+        if bytes(rb._buffer) != b"0\n":
+            viol.append(("the other server's client is no longer served after the first server was stopped", bytes(rb._buffer)))
+        if loop.blocked:
+            viol.append(("one session blocked the event loop", order))
+    except AssertionError as e:
+        viol.append(("harness", str(e)))
+    except Exception as e:  # noqa: BLE001
+        viol.append(("unexpected exception", type(e).__name__, str(e)))
+    finally:
+        try:
+            for w in writers:
+                w.close()
+            for t in tasks:
+                if not t.done():
+                    t.cancel()
+            for t in asyncio.all_tasks(loop):
+                t.cancel()
+            loop.quiesce()
+        except BaseException:  # noqa: BLE001
+            pass
+        events._set_running_loop(None)
+        try:
+            loop.close()
+        except Exception:  # noqa: BLE001
+            pass
+        for path in paths:
+            if os.path.exists(path):
+                os.unlink(path)
+    return viol
+
+
 def _work(args):
     global SCALE
+    if args[0] == "twoservers":
+        tmp = tempfile.mkdtemp(prefix="ctlsock")
+        out = []
+        n = 0
+        try:
+            for ka in ("unix", "tcp"):
+                for kb in ("unix", "tcp"):
+                    for order in ("no-client-of-a", "a-client-came-and-went"):
+                        n += 1
+                        SCALE = 1.0
+                        v = run_two_servers(ka, kb, tmp, order)
+                        if v and not all(x[0] == "harness" for x in v):
+                            SCALE = 10.0
+                            v = run_two_servers(ka, kb, tmp, order)
+                            SCALE = 1.0
+                        for x in v:
+                            out.append({"key": "HARNESS" if x[0] == "harness" else str(x[0]), "twoservers": [ka, kb, order], "detail": repr(x)})
+        finally:
+            shutil.rmtree(tmp, ignore_errors=True)
+        return n, 6 * n, out, set()
     if args[0] == "halfclose":
         tmp = tempfile.mkdtemp(prefix="ctlsock")
         out = []
@@ -617,6 +718,8 @@ def run(tier, seed):
         # ... and parked in gather-and-close (the pool's one task keeps running): a client leaving must not touch the task
         work += [(kind, hw[i::jobs], "gac|num-running") for i in range(jobs)]
         work.append(("halfclose", kind))
+        if kind == "tcp":
+            work.append(("twoservers",))
         if tier != "quick":
             hs2 = list(histories(1)) + list(histories(2, max_cmds=1))
             work += [(kind, hs2[i::jobs], "start 1") for i in range(jobs)]
@@ -658,6 +761,15 @@ def run(tier, seed):
 
 def replay(v):
     global SCALE
+    if v.get("twoservers"):
+        tmp = tempfile.mkdtemp(prefix="ctlsock")
+        try:
+            SCALE = 10.0
+            viol = run_two_servers(v["twoservers"][0], v["twoservers"][1], tmp, v["twoservers"][2])
+        finally:
+            SCALE = 1.0
+            shutil.rmtree(tmp, ignore_errors=True)
+        return {"viol": repr(viol)} if viol else None
     if v.get("halfclose"):
         tmp = tempfile.mkdtemp(prefix="ctlsock")
         try:
